@@ -298,6 +298,10 @@ class PymbolicToASTMapper(CachedMapper):
     def map_constant(self, expr: ScalarT) -> ast.expr:
         if isinstance(expr, bool):
             return ast.NameConstant(expr)
+        elif isinstance(expr, (int, float)) and expr < 0:
+            # A negative literal is not an atom: "-2 ** a" means -(2 ** a).
+            # Emit a unary minus so that unparsing parenthesizes it where needed.
+            return ast.UnaryOp(ast.USub(), ast.Constant(-expr, None))
         else:
             return ast.Constant(expr, None)
 
@@ -352,8 +356,8 @@ class PymbolicToASTMapper(CachedMapper):
                                            ast.LShift())
 
     def map_right_shift(self, expr) -> ast.expr:
-        return self._map_multi_children_op((expr.numerator,
-                                            expr.denominator),
+        return self._map_multi_children_op((expr.shiftee,
+                                            expr.shift),
                                            ast.RShift())
 
     def map_bitwise_not(self, expr) -> ast.expr:
@@ -494,7 +498,7 @@ def to_evaluatable_python_function(expr: ExpressionT,
     else:
         unparse = ast.unparse
 
-    dep_mapper = CachedDependencyMapper(composite_leaves=True)
+    dep_mapper = CachedDependencyMapper(composite_leaves=False)
     deps = sorted({dep.name for dep in dep_mapper(expr)})
 
     ast_func = ast.FunctionDef(name=fn_name,
